@@ -83,3 +83,26 @@ def mentions(fn, node, pred):
         if pred(fn.nodes[i], i):
             return True
     return False
+
+
+def value_sources(fn, node, limit=400):
+    """May-provenance closure (flow-insensitive): all nodes that can contribute to the value of
+    `node` — its sub-expressions and, for every local it mentions, every definition of that local."""
+    seen = set()
+    seen_decl = set()
+    stack = [node]
+    while stack and len(seen) < limit * 10:
+        i = stack.pop()
+        if i is None or i < 0 or i in seen:
+            continue
+        seen.add(i)
+        nd = fn.nodes[i]
+        if nd['k'] == 'DeclRefExpr' and nd.get('dk') in ('Var', 'Binding') and nd['d'] not in seen_decl:
+            seen_decl.add(nd['d'])
+            for _k, rhs, site in all_defs(fn, nd['d']):
+                if rhs is not None:
+                    stack.append(rhs)
+                else:
+                    stack.append(site)
+        stack.extend(fn.kids(i))
+    return seen
